@@ -30,7 +30,7 @@ CLAIMED = {
   "note": "The whole-history statement (index equals the chain) is not decided; S11 (re-examined blocks re-create spent cells of already-synced scripts) is a listed known finding.",
   "ref": "DESIGN.md 5-C03"},
  "C13": {
-  "text": "Partial (key layout only): the real encoder From<Key> for Vec<u8> / append_key / Key::into_vec produces exactly prefix | script raw data | number be64 | tx_index be32 | io_index be32 [| io_type] for every key.",
+  "text": "Partial (key layout and scan positioning): the real encoder From<Key> for Vec<u8> / append_key / Key::into_vec produces exactly prefix | script raw data | number be64 | tx_index be32 | io_index be32 [| io_type] for every key; the real build_query_options returns exactly (prefix, from key, direction, skip) as the property's mechanism prescribes for every search key, order and cursor.",
   "note": "Pagination, ordering, filters, grouping and capacity sums in service.rs are NOT under contract.",
   "ref": "DESIGN.md 5-C13"},
  "C04": {
